@@ -53,7 +53,7 @@ fn c05_len() {
 //   (read == mask(m(write))), and then len == m(write): a reader that waited for quiescence sees
 //   every value whose slot was claimed.  All (write, read) words satisfying B.
 pub fn c05_is_quiesced_body(write: usize, read: usize) {
-    let m = min(write, BLOCK_SIZE);
+    let m = core::cmp::min(write, BLOCK_SIZE);
     kani::assume(read & !mask(m) == 0); // B
     let block = mem::ManuallyDrop::new(Block::<u8>::new()); // never run Drop on a panic path: it spins on a non-quiescent block
     block.write.store(write, Ordering::SeqCst);
